@@ -50,7 +50,9 @@ class World:
         return a
     def fingerprint(self):
         inc2 = '-Iinc2' in self.flags
-        return json.dumps([os.path.basename(self.cur), self.flags, self.lang, self.files['main.c'], self.files['h1.h'], self.files['inc2/h2.h'] if inc2 else self.files['inc1/h2.h'],
+        # a header that uses __TIMESTAMP__ is a different input whenever it has been rewritten (its modification time is part of the text)
+        stamp = os.stat(os.path.join(self.w, 'h1.h')).st_mtime_ns if '__TIMESTAMP__' in self.files['h1.h'] else None
+        return json.dumps([stamp, os.path.basename(self.cur), self.flags, self.lang, self.files['main.c'], self.files['h1.h'], self.files['inc2/h2.h'] if inc2 else self.files['inc1/h2.h'],
                            self.env.get('SCCACHE_C_CUSTOM_CACHE_BUSTER'), self.out if '-gsplit-dwarf' in self.flags else None])
     def request(self, note, expect_cacheable=True, evicted=False):
         argv = self.argv(); out = os.path.join(self.w, self.out)
@@ -133,9 +135,16 @@ def mutate(w, rng):
     if k >= 18: w.recache_next = True; return 'no change, forced re-store (SCCACHE_RECACHE)'
     if k == 0: w.write('main.c', SRC.format(fn='f', k=rng.randrange(1, 9))); return 'edit source (same size)'
     if k == 1: w.write('main.c', SRC.format(fn='f', k=rng.randrange(10, 999)) + '/* pad */\n' * rng.randrange(3)); return 'edit source (size change)'
-    if k == 2: w.write('h1.h', '#define A %d\n' % rng.randrange(1, 9)); return 'edit header h1 (same size)'
+    stamp = 'static const char *const h1_stamp = __TIMESTAMP__;\n' if '__TIMESTAMP__' in w.files['h1.h'] else ''      # a header that uses __TIMESTAMP__ keeps doing so
+    if k == 2:
+        if stamp:
+            # every version of a header that uses __TIMESTAMP__ gets a size of its own: a same-size edit within one second of the
+            # previous compile is the open finding F-C04-b of C04 (never content-compared), which these histories are not about
+            w.h1_edits = getattr(w, 'h1_edits', 0) + 1
+            w.write('h1.h', '#define A %d\n' % rng.randrange(1, 9) + stamp + '/*' + 'x' * w.h1_edits + '*/\n'); return 'edit header h1 (uses __TIMESTAMP__, new size)'
+        w.write('h1.h', '#define A %d\n' % rng.randrange(1, 9)); return 'edit header h1 (same size)'
     if k == 3: w.write('inc1/h2.h', '#define B %d\n' % rng.randrange(10, 9999)); return 'edit header inc1/h2'
-    if k == 4: w.write('main.c', SRC.format(fn='f', k=1)); w.write('h1.h', '#define A 3\n'); w.write('inc1/h2.h', '#define B 4\n'); return 'revert all files'
+    if k == 4: w.write('main.c', SRC.format(fn='f', k=1)); w.write('h1.h', '#define A 3\n' + stamp); w.write('inc1/h2.h', '#define B 4\n'); return 'revert all files'
     if k == 5: w.flags = [f for f in w.flags if not f.startswith('-DX')] + ['-DX=%d' % rng.randrange(3)]; return 'change define'
     if k == 6: w.flags = [f for f in w.flags if not f.startswith('-O')] + [rng.choice(['-O0', '-O1', '-O2'])]; return 'change optimisation'
     if k == 7: w.flags = [f for f in w.flags if not f.startswith('-Iinc')] + ['-Iinc1' if '-Iinc2' in w.flags else '-Iinc2']; return 'switch include path'
@@ -144,7 +153,7 @@ def mutate(w, rng):
     if k == 10: w.env = dict(w.env, UNRELATED_VAR=str(rng.randrange(99))); return 'change unrelated env'
     if k == 11: w.env = dict(w.env, SCCACHE_C_CUSTOM_CACHE_BUSTER=str(rng.randrange(3))); return 'change cache-buster env'
     if k == 12: w.write('main.c', 'int f(int x) { return }\n'); return 'break the source'
-    if k == 13: w.write('h1.h', '#define A 3\n#error boom\n'); return 'break a header (#error)'
+    if k == 13: w.write('h1.h', '#define A 3\n' + stamp + '#error boom\n'); return 'break a header (#error)'
     if k == 14: w.restart(); return 'restart'
     if k == 15: w.flags = ([f for f in w.flags if f not in ('-g', '-gsplit-dwarf')] if '-gsplit-dwarf' in w.flags else w.flags + ['-g', '-gsplit-dwarf']); return 'toggle -g -gsplit-dwarf'
     if k == 16: w.out = {'o1/out.o': 'o2/out.o', 'o2/out.o': 'o1/out.o'}.get(w.out, 'o1/out.o'); return 'same output name in another directory'
@@ -227,6 +236,10 @@ def run_readonly(root, tag, compiler, seed, n_hist, n_req, oversize=False, damag
             w.sc.cache = os.path.join(w.root, 'xdg', 'sccache')
         elif conf in ('file', 'file_env_dir'):
             w.sc.env.pop('SCCACHE_DIRECT', None); w.sc.use_config({'use_preprocessor_cache_mode': direct})
+        if h % 2 == 0 and not oversize:
+            # a header whose text depends on its own modification time: preprocessor-cache entries that mention it are rewritten when they
+            # are looked up, which a read-only cache refuses — the request must still be served (by preprocessing)
+            w.write('h1.h', '#define A 3\nstatic const char *const h1_stamp = __TIMESTAMP__;\n'); w.trace.append('--- h1.h uses __TIMESTAMP__')
         w.trace.append(f'--- configuration variant {conf}: cache directory {os.path.relpath(w.sc.cache, w.root)}')
         w.sc.start()
         try:
@@ -260,7 +273,7 @@ def run_readonly(root, tag, compiler, seed, n_hist, n_req, oversize=False, damag
             h0 = w.hits
             recache = 'SCCACHE_RECACHE' in ro_env
             for i in range(n_req):
-                x = rng.random()
+                x = rng.random() if i > 0 else 0.9        # the first request after the restart repeats the last populated state as it is
                 if x < 0.4 and w.snaps: w.revisit(rng.choice(w.snaps)); note = 'revisit a populated state'
                 elif x < 0.8: note = mutate(w, rng)
                 else: note = 'repeat'
